@@ -178,9 +178,27 @@ func (o concOp) run() (digest string) {
 		}
 		b, _ := json.Marshal(wj.ToJSON(fv))
 		return sha(enc.Bytes()) + sha(b) + d.Name + fmt.Sprint(d.SeqID)
-	case "readrequest":
+	case "readrequest", "readrequest-legacy", "readrequest-bare":
 		e := wire.Envelope{Name: "call", Type: wire.Call, SeqID: int32(r.Uint32()), Value: v}
-		binary.Default.EncodeEnveloped(e, &enc)
+		switch o.kind {
+		case "readrequest":
+			binary.Default.EncodeEnveloped(e, &enc)
+		case "readrequest-legacy":
+			bw := binary.BorrowWriter(&enc)
+			bw.WriteLegacyEnveloped(e)
+			binary.ReturnWriter(bw)
+		default: // a bare, non-empty struct (make sure it has a field so that it is longer than one byte)
+			v = wire.NewValueStruct(wire.Struct{Fields: append([]wire.Field{{ID: 1, Value: wire.NewValueI32(7)}}, v.GetStruct().Fields...)})
+			if v.GetStruct().Fields[0].ID == 1 && len(v.GetStruct().Fields) > 1 {
+				fs := v.GetStruct().Fields
+				for i := 1; i < len(fs); i++ {
+					if fs[i].ID == 1 {
+						fs[i].ID = 2001
+					}
+				}
+			}
+			binary.Default.Encode(v, &enc)
+		}
 		bc := &bodyCatcher{}
 		rw, err := binary.Default.ReadRequest(context.Background(), wire.Call, sx.NewChunked(enc.Bytes(), "rand", o.seed), bc)
 		if err != nil {
@@ -190,11 +208,26 @@ func (o concOp) run() (digest string) {
 		rw.WriteResponse(wire.Reply, &out, replyEnv{name: "x", calls: sx.Calls(replyBody)})
 		b, _ := json.Marshal(wj.ToJSON(bc.v))
 		return sha(b) + sha(out.Bytes())
+	case "decoderequest":
+		binary.Default.Encode(v, &enc)
+		dv, resp, err := binary.Default.DecodeRequest(wire.Call, bytes.NewReader(enc.Bytes()))
+		if err != nil {
+			return "err:" + err.Error()
+		}
+		fv, err := wj.Force(dv)
+		closeLazy(dv)
+		if err != nil {
+			return "err:" + err.Error()
+		}
+		var out bytes.Buffer
+		resp.EncodeResponse(replyBody, wire.Reply, &out)
+		b, _ := json.Marshal(wj.ToJSON(fv))
+		return sha(b) + sha(out.Bytes())
 	}
 	return "unknown-kind"
 }
 
-var concKinds = []string{"encode", "decode", "stream-encode", "stream-decode", "gen-wire", "gen-stream", "envelope", "readrequest"}
+var concKinds = []string{"encode", "decode", "stream-encode", "stream-decode", "gen-wire", "gen-stream", "envelope", "readrequest", "readrequest-legacy", "readrequest-bare", "decoderequest"}
 
 type echoHandler struct{}
 
